@@ -165,121 +165,63 @@ theorem parseLogItems_torn (f : Nat) (c : List Bytes) (t u : Bytes) (h : t ++ u 
       simp
 
 
-/-- for a single-digit index the `$1` marker is the canonical record `SELECT db` -/
-theorem selectMarker_eq_record (db : Int) (h0 : 0 ≤ db) (h9 : db ≤ 9) :
-    selectMarker db = encodeCmd [b "SELECT", fmtInt db] := by
-  have : db = 0 ∨ db = 1 ∨ db = 2 ∨ db = 3 ∨ db = 4 ∨ db = 5 ∨ db = 6 ∨ db = 7 ∨ db = 8 ∨ db = 9 := by omega
-  rcases this with h | h | h | h | h | h | h | h | h | h <;> subst h <;> decide
+theorem marker_bytes : b "*2\r\n$6\r\nSELECT\r\n$" =
+    [42,50,13,10,36,54,13,10,83,69,76,69,67,84,13,10,36] := by decide
+
+/-- the marker is the canonical record `SELECT db` for every index: the length prefix is the real
+    length of the index (the fixed `$1` prefix, which made negative indices and indices ≥ 10
+    unreadable, was repaired upstream) -/
+theorem selectMarker_eq_record (db : Int) : selectMarker db = encodeCmd [b "SELECT", fmtInt db] := by
+  have h : b "*2\r\n$6\r\nSELECT\r\n$" = arrHdr 2 ++ bulkStr (b "SELECT") ++ [36] := by decide
+  simp only [selectMarker, h, encodeCmd, bulkStr, List.length_cons, List.length_nil, List.map_cons, List.map_nil,
+    List.flatten_cons, List.flatten_nil]
+  simp
+
+/-- the replay of a SELECT record: a parsable index is skipped (and never used), an unparsable one
+    ends the replay with success -/
+theorem replay_select (now : Int) (x : Bytes) (rest : List LogItem) (s : State) :
+    replay now (.cmd [b "SELECT", x] :: rest) s =
+      (match parseInt64 x with | some _ => replay now rest s | none => .ok s) := by
+  have h1 : (eqFold (b "SELECT") (b "select") && isAscii (b "SELECT")) = true := by decide
+  rw [replay]
+  · simp only [List.headD_cons, h1, if_true, List.getD_cons_succ, List.getD_cons_zero]
+    cases parseInt64 x <;> rfl
+  · intro hnil; simp at hnil
 
 /-- a single-digit index is parsed back by the replay's strconv.Atoi -/
 theorem parseInt64_digit (db : Nat) (h9 : db ≤ 9) : parseInt64 (fmtInt db) = some (db : Int) := by
   have : db = 0 ∨ db = 1 ∨ db = 2 ∨ db = 3 ∨ db = 4 ∨ db = 5 ∨ db = 6 ∨ db = 7 ∨ db = 8 ∨ db = 9 := by omega
   rcases this with h | h | h | h | h | h | h | h | h | h <;> subst h <;> decide
 
-/-! ### markers the reader cannot read -/
-
-theorem digitsRevF_ne_nil (f n : Nat) : digitsRevF (f + 1) n ≠ [] := by simp [digitsRevF]
-
-/-- two or more characters: negative indices and indices ≥ 10 -/
-theorem fmtInt_two (db : Int) (h : db < 0 ∨ 10 ≤ db) : ∃ a c tl, fmtInt db = a :: c :: tl ∧ isDigit c = true := by
-  cases db with
-  | ofNat n =>
-    have hn : 10 ≤ n := by
-      rcases h with h | h
-      · exact absurd h (by simp)
-      · exact Int.ofNat_le.mp h
-    have hd := allDigits_natDigits n
-    have hlen : 2 ≤ (natDigits n).length := by
-      simp only [natDigits, List.length_reverse, digitsRevF]
-      have : ¬ n < 10 := by omega
-      simp only [this, if_false, List.length_cons]
-      cases hn' : n with
-      | zero => omega
-      | succ m =>
-        have := digitsRevF_ne_nil m ((m + 1) / 10)
-        cases hr : digitsRevF (m + 1) ((m + 1) / 10) with
-        | nil => exact absurd hr this
-        | cons _ _ => simp
-    simp only [fmtInt]
-    cases hx : natDigits n with
-    | nil => rw [hx] at hlen; simp at hlen
-    | cons a r =>
-      cases r with
-      | nil => rw [hx] at hlen; simp at hlen
-      | cons c tl =>
-        rw [hx] at hd
-        simp only [allDigits, List.all_cons, Bool.and_eq_true] at hd
-        exact ⟨a, c, tl, rfl, hd.2.2.1⟩
-  | negSucc n =>
-    have hd := allDigits_natDigits (n + 1)
-    simp only [fmtInt]
-    cases hx : natDigits (n + 1) with
-    | nil => rw [hx] at hd; simp [allDigits] at hd
-    | cons c tl =>
-      rw [hx] at hd
-      simp only [allDigits, List.all_cons, Bool.and_eq_true] at hd
-      exact ⟨45, c, tl, rfl, hd.2.1⟩
-
-theorem marker_bytes : b "*2\r\n$6\r\nSELECT\r\n$1\r\n" =
-    [42,50,13,10,36,54,13,10,83,69,76,69,67,84,13,10,36,49,13,10] := by decide
-
-theorem parseBulk_long (a c : UInt8) (tl : Bytes) (hc : isDigit c = true) :
-    Wire.parseBulk (36 :: 49 :: 13 :: 10 :: a :: c :: tl) = none := by
-  have hc13 : c ≠ 13 := by intro h; subst h; simp [isDigit] at hc
-  have h1 : allDigits [49] = true := by decide
-  have h2 : digitsVal [49] = 1 := by decide
-  have hs : splitCrlf (49 :: 13 :: 10 :: a :: c :: tl) = some ([49], a :: c :: tl) :=
-    splitCrlf_clean [49] _ (by decide)
-  simp only [Wire.parseBulk, hs, h1, h2, Bool.not_true, Bool.false_eq_true, if_false]
-  split
-  · rfl
-  · simp only [List.drop_succ_cons, List.drop_zero]
+/-- every index in the int64 range is parsed back by the replay's strconv.Atoi -/
+theorem parseInt64_fmtNat (n : Nat) (h : (n : Int) ≤ maxInt64) : parseInt64 (fmtInt n) = some (n : Int) := by
+  have hd := allDigits_natDigits n
+  have hv := digitsVal_natDigits n
+  have hfmt : fmtInt (n : Int) = natDigits n := rfl
+  rw [hfmt]
+  cases hn : natDigits n with
+  | nil => rw [hn] at hd; simp [allDigits] at hd
+  | cons c r =>
+    have hc : isDigit c = true := by rw [hn] at hd; simp [allDigits] at hd; exact hd.1
+    have h43 : c ≠ 43 := by intro h; subst h; simp [isDigit] at hc
+    have h45 : c ≠ 45 := by intro h; subst h; simp [isDigit] at hc
+    rw [hn] at hd hv
+    have hmin : minInt64 ≤ (n : Int) := by unfold minInt64; omega
+    unfold parseInt64
     split
-    · rename_i heq; simp only [List.cons.injEq] at heq; exact absurd heq.1 hc13
-    · rfl
+    rename_i neg ds heq
+    have hnd : neg = false ∧ ds = c :: r := by
+      split at heq
+      · rename_i h1; simp at h1; exact absurd h1.1 h43
+      · rename_i h1; simp at h1; exact absurd h1.1 h45
+      · simp only [Prod.mk.injEq] at heq; exact ⟨heq.1.symm, heq.2.symm⟩
+    obtain ⟨rfl, rfl⟩ := hnd
+    simp [hd, hv, hmin, h]
 
-/-- the marker of a negative index or of an index ≥ 10 is not a command, whatever follows it -/
-theorem parseCommand_marker_long (db : Int) (rest : Bytes) (h : db < 0 ∨ 10 ≤ db) :
-    Wire.parseCommand (selectMarker db ++ rest) = none ∧ Wire.hasNonBulkElement (selectMarker db ++ rest) = false := by
-  obtain ⟨a, c, tl, hf, hc⟩ := fmtInt_two db h
-  have e : selectMarker db ++ rest =
-      42 :: ([50] ++ 13 :: 10 :: (bulkStr (b "SELECT") ++ (36 :: 49 :: 13 :: 10 :: a :: c :: (tl ++ crlf ++ rest)))) := by
-    have hb : bulkStr (b "SELECT") = [36,54,13,10,83,69,76,69,67,84,13,10] := by decide
-    simp only [selectMarker, marker_bytes, hf, hb]
-    simp
-  have hs := splitCrlf_clean [50] (bulkStr (b "SELECT") ++ (36 :: 49 :: 13 :: 10 :: a :: c :: (tl ++ crlf ++ rest))) (by decide)
-  have h1 : allDigits [50] = true := by decide
-  have h2 : digitsVal [50] = 2 := by decide
-  have hbulk := parseBulk_long a c (tl ++ crlf ++ rest) hc
-  have h36 : bulkStr (b "SELECT") ++ (36 :: 49 :: 13 :: 10 :: a :: c :: (tl ++ crlf ++ rest)) =
-      36 :: ([54,13,10,83,69,76,69,67,84,13,10] ++ (36 :: 49 :: 13 :: 10 :: a :: c :: (tl ++ crlf ++ rest))) := by
-    have hb : bulkStr (b "SELECT") = [36,54,13,10,83,69,76,69,67,84,13,10] := by decide
-    rw [hb]; rfl
-  rw [e]
-  constructor
-  · simp only [Wire.parseCommand, hs, h1, h2, Bool.not_true, Bool.false_eq_true, if_false]
-    simp only [Wire.parseBulks, bind, Option.bind, parseBulk_bulkStr, hbulk]
-  · simp only [Wire.hasNonBulkElement, hs, h1, h2, Bool.not_true, Bool.false_eq_true, if_false]
-    have hp := parseBulk_bulkStr (b "SELECT") (36 :: 49 :: 13 :: 10 :: a :: c :: (tl ++ crlf ++ rest))
-    rw [h36] at hp ⊢
-    simp only [Wire.bulksMeetNonBulk, hp, hbulk]
-
-/-- … and the reader returns nothing of a log that begins with it -/
-theorem parseLogItems_marker_long (f : Nat) (db : Int) (rest : Bytes) (h : db < 0 ∨ 10 ≤ db) :
-    parseLogItems f (selectMarker db ++ rest) = ([], selectMarker db ++ rest) := by
-  obtain ⟨hp, hn⟩ := parseCommand_marker_long db rest h
-  have e : ∃ tl, selectMarker db ++ rest = 42 :: tl := by
-    refine ⟨[50,13,10,36,54,13,10,83,69,76,69,67,84,13,10,36,49,13,10] ++ fmtInt db ++ crlf ++ rest, ?_⟩
-    simp only [selectMarker, marker_bytes]
-    simp
-  obtain ⟨tl, e⟩ := e
-  rw [e] at hp hn ⊢
-  cases f with
-  | zero => simp [parseLogItems]
-  | succ f =>
-    unfold parseLogItems
-    simp only [hp, hn]
-    simp
+/-- the marker followed by anything is read back as the record `SELECT db`, for every index -/
+theorem parseCommand_selectMarker (db : Int) (rest : Bytes) :
+    Wire.parseCommand (selectMarker db ++ rest) = some ([b "SELECT", fmtInt db], rest) := by
+  rw [selectMarker_eq_record]; exact parseCommand_encodeCmd _ rest
 
 /-- a log read as command items only is returned by `parseLog` as those commands -/
 theorem parseLog_of_items (f : Nat) (bs r : Bytes) (cs : List (List Bytes))
